@@ -36,7 +36,13 @@ fn extreme_cfg(t: &mut Tape) -> Cfg {
         1 => 0,
         _ => t.range(0, 64),
     };
-    Cfg { width, tab, reorder: t.chance(40) }
+    let blank = match t.weighted(&[6, 2, 1, 1]) {
+        0 => 2,
+        1 => config::blank(t),
+        2 => usize::MAX,
+        _ => t.u64() as usize,
+    };
+    Cfg { width, tab, reorder: t.chance(40), blank }
 }
 
 /// deterministic part: every nesting family at a fixed depth, formatted on an 8 MiB stack
@@ -70,10 +76,10 @@ impl Prop for C05 {
         if i < n {
             let it = &env.corpus.items[i / 4];
             let cfg = match i % 4 {
-                0 => Cfg { width: 0, tab: 0, reorder: true },
-                1 => Cfg { width: usize::MAX / 2, tab: 64, reorder: false },
-                2 => Cfg { width: 1, tab: 17, reorder: true },
-                _ => Cfg { width: 37, tab: 1, reorder: false },
+                0 => Cfg { width: 0, tab: 0, reorder: true, blank: 2 },
+                1 => Cfg { width: usize::MAX / 2, tab: 64, reorder: false, blank: 2 },
+                2 => Cfg { width: 1, tab: 17, reorder: true, blank: 2 },
+                _ => Cfg { width: 37, tab: 1, reorder: false, blank: 2 },
             };
             Some(TotCase { src: it.text.clone(), cfg, origin: "G0".into() })
         } else {
@@ -85,7 +91,7 @@ impl Prop for C05 {
             };
             // markup-nesting families (lists) are bounded by indentation growth, keep them smaller
             let depth = if matches!(fam, "list" | "enum" | "term") { depth.min(150) } else { depth };
-            let cfg = if j % 2 == 0 { Cfg { width: 80, tab: 2, reorder: false } } else { Cfg { width: 0, tab: 4, reorder: false } };
+            let cfg = if j % 2 == 0 { Cfg { width: 80, tab: 2, reorder: false, blank: 2 } } else { Cfg { width: 0, tab: 4, reorder: false, blank: 2 } };
             Some(TotCase { src: nest::same(fam, depth), cfg, origin: format!("G4:{fam}x{depth}") })
         }
     }
@@ -156,7 +162,7 @@ impl Prop for C05 {
                         return Verdict::fail("C05:wrapper-changed-erroneous", "format_with_width did not return the erroneous input unchanged");
                     }
                 } else {
-                    let expect = env.f.format(&c.src, &Cfg { width: w, tab: 2, reorder: false });
+                    let expect = env.f.format(&c.src, &Cfg { width: w, tab: 2, reorder: false, blank: 2 });
                     if expect.ok() != Some(s.as_str()) {
                         return Verdict::fail("C05:wrapper-differs", "format_with_width(s, w) differs from format_content with the default config at width w");
                     }
@@ -182,7 +188,7 @@ impl Prop for C05 {
     fn reduce(&self, c: &TotCase, _env: &Env, fails: &mut dyn FnMut(&TotCase) -> bool) -> TotCase {
         let mut best = c.clone();
         for (w, t) in [(80, 2), (40, 2), (0, 2), (c.cfg.width, 2), (80, c.cfg.tab)] {
-            let cand = TotCase { cfg: Cfg { width: w, tab: t, reorder: false }, ..best.clone() };
+            let cand = TotCase { cfg: Cfg { width: w, tab: t, reorder: false, blank: 2 }, ..best.clone() };
             if fails(&cand) {
                 best = cand;
                 break;
@@ -263,12 +269,12 @@ impl Prop for C18 {
             let r = i % per;
             let depth = ds[r / WIDTHS18.len()];
             let width = WIDTHS18[r % WIDTHS18.len()];
-            Some(WorkCase { src: nest::same(fam, depth), cfg: Cfg { width, tab: 2, reorder: false }, depth, family: fam.to_string() })
+            Some(WorkCase { src: nest::same(fam, depth), cfg: Cfg { width, tab: 2, reorder: false, blank: 2 }, depth, family: fam.to_string() })
         } else {
             let j = i - n;
             let it = &env.corpus.items[env.corpus.wf_files[j / 2]];
             let width = if j % 2 == 0 { 40 } else { 0 };
-            Some(WorkCase { src: it.text.clone(), cfg: Cfg { width, tab: 2, reorder: false }, depth: 0, family: "G0".into() })
+            Some(WorkCase { src: it.text.clone(), cfg: Cfg { width, tab: 2, reorder: false, blank: 2 }, depth: 0, family: "G0".into() })
         }
     }
 
@@ -281,7 +287,7 @@ impl Prop for C18 {
 
     fn decode(&self, t: &mut Tape, env: &Env, _st: &mut Stats) -> Option<WorkCase> {
         let width = t.pick(&[0usize, 20, 80, config::HUGE, 40, 10]);
-        let cfg = Cfg { width, tab: t.pick(&[2usize, 4, 1]), reorder: false };
+        let cfg = Cfg { width, tab: t.pick(&[2usize, 4, 1]), reorder: false, blank: 2 };
         if t.chance(180) {
             let depth = match t.weighted(&[4, 4, 2]) {
                 0 => t.range(1, 8),
